@@ -145,10 +145,16 @@ class Exec:
             view = None
             if base[0] == "paren":
                 base = base[1]
+            addr_taken = False
             if base[0] == "cast":
                 view = base[1]
                 base = base[2]
+                if base[0] == "addr":
+                    addr_taken = True
+                    base = base[1]
             b = self.lval(base)
+            if b[0] == "scalar" and b[1][0] == "c" and not addr_taken:
+                self.ob("deref-valid", False, f"the VALUE of state->c.{b[1][1]} is converted to a pointer and indexed (missing &): access to an arbitrary address", 0)
             if b[0] == "ptr" or (b[0] == "scalar" and b[1][0] == "c"):
                 name = b[1] if b[0] == "ptr" else b[1][1]
                 return ("elem", name, e[2], view)
